@@ -188,6 +188,17 @@ RedefLawsHold ==
   (pc = "positional" /\ hist # <<>>) =>
      RedefLaws(Stage(orig, hist, Len(hist) - 1), sig, call)
 
+(* The same laws for EVERY call shape of the bounds at once, evaluated on the history states  *)
+(* (behaviours of OnlyHists below: define, then SetDefaults).  With MachineIsFunction on     *)
+(* and LawsHold for all signatures of the bounds and Fresh(sig) \in Signatures(N) this covers  *)
+(* the large bounds without exploring the phase machine once more per history; the phase       *)
+(* machine WITH histories (Return / SetDefaults interleaved with calls) is explored at smaller *)
+(* bounds.                                                                                     *)
+HistLawsAllCalls ==
+  (pc = "sig" /\ hist # <<>>) =>
+     \A c \in Calls(sig, MaxPos, MaxKw, Foreign, StarNames) :
+        RedefLaws(Stage(orig, hist, Len(hist) - 1), sig, c)
+
 -----------------------------------------------------------------------------
 (* Export: one CASE line per signature (the pc = "sig" states) with every call shape of the   *)
 (* bounds; OnlySigs stops the behaviours there.                                               *)
